@@ -436,7 +436,8 @@ class Adversary:
             pad = f.get('pad', -1)
             return wire.data(f['sid'], payload(f.get('tag', 'A'), f['n']), es=f['es'], pad=None if pad < 0 else pad)
         if t in ('HEADERS', 'PP'):
-            blk = self.block(f['h'], f.get('blk', 'ok'))
+            # bx: the octets of the block as given (HPACK-level fuzzing: the block did not go through the peer's encoder)
+            blk = bytes.fromhex(f['bx']) if 'bx' in f else self.block(f['h'], f.get('blk', 'ok'))
             nfr = f.get('frag', 1)
             pad = f.get('pad', -1)
             pad = None if pad < 0 else pad
